@@ -88,6 +88,8 @@ structure VariantDef where
   rename : Option Bytes := none
   skip : Bool := false
   isDefault : Bool := false            -- `#[default]`
+  /-- the variant's own `#[serde(rename_all = "..")]`: wins over the enum's `rename_all_fields` -/
+  renameAll : RenameRule := .none
   shape : VariantShape := .unit
   deriving Repr, Inhabited
 
@@ -187,7 +189,7 @@ def deriveVariantWith (go : List PName → Option Bytes → TyExpr → DOut) (re
            else [(b!"org.apache.avro.rust.tuple", .bool true)]
          some (.record pn none none fs attrs, named'))
     | .struct fields =>
-      (match deriveFieldsWith go renameAllFields fields named ns with
+      (match deriveFieldsWith go (v.renameAll.or renameAllFields) fields named ns with
        | none => none
        | some (fs, named') => some (.record pn none none fs [], named'))
 
